@@ -3,6 +3,7 @@
   version table) dominate every panic site reachable from `Allowed` (also used by C18).
 -/
 import VProofs.AuthRulesMember
+import VProofs.AuthRulesEvents
 namespace V.AuthRules
 open V V.Json V.GoJson V.Auth
 
@@ -179,7 +180,18 @@ theorem np_member (c : Ctx) (p : Provider) (hf : Fresh p c) (e : Event) (sig : B
 
 theorem np_allowed (c : Ctx) (p : Provider) (hf : Fresh p c) (e : Event) (sig : Bool) (hr : e.roomID ≠ [])
     (hw : RoomIDWellFormed e) : NoPanic (c.allowed e sig) := by
-  unfold Ctx.allowed
-  repeat (first | exact np_create c e hw | exact np_aliases c e | exact np_member c p hf e sig hr | exact np_powerLevels c p hf e hr | exact np_redact c p hf e hr | exact np_default c p hf e hr | split)
+  unfold Ctx.allowed Ctx.dispatch Ctx.dispatchPL
+  split
+  · exact np_na
+  · split
+    · exact np_create c e hw
+    · split
+      · exact np_aliases c e
+      · split
+        · rename_i v hv
+          rcases (plErr_spec hf).2 v hv with rfl | rfl
+          · exact np_na
+          · exact np_fail
+        · repeat (first | exact np_member c p hf e sig hr | exact np_powerLevels c p hf e hr | exact np_redact c p hf e hr | exact np_default c p hf e hr | split)
 
 end V.AuthRules
